@@ -45,6 +45,7 @@ Definition node_reachb (a b : node) : bool :=
   match nst a with
   | NNone => nrc a <=? nrc b
   | NRunning => nrc a <=? nrc b
+  | NCancel => nrc a <=? nrc b      (* not final: a retrying worker resets a canceled node to none *)
   | _ => nst_eqb (nst a) (nst b) && (nrc a =? nrc b)
   end.
 Fixpoint tbl_reachb (t t' : table) : bool :=
